@@ -20,7 +20,7 @@ theorem dl_tie (cmd_rate_max speed : Rat) : dl cmd_rate_max speed = speed / cmd_
 
 /-- `LaserPath.num_subdivisions` as written in `laserpath.py` (`f` is the speed after defaulting) -/
 def num_subdivisions (cmd_rate_max f l_curve : Rat) : Int :=
-  (if (Rat.ceil (l_curve / (f / cmd_rate_max))) < (3 : Int) then (3 : Int) else (Rat.ceil (l_curve / (f / cmd_rate_max))))
+  (if (Rat.ceil (l_curve / (f / cmd_rate_max))) ≤ (1 : Int) then (3 : Int) else (Rat.ceil (l_curve / (f / cmd_rate_max))))
 
 theorem num_subdivisions_tie (cmd_rate_max f l_curve : Rat) (hf : ¬ f < 1 / 1000000) :
     Femto.Smp.numSubdivisions f cmd_rate_max l_curve = .ok (num_subdivisions cmd_rate_max f l_curve).toNat := by
